@@ -34,6 +34,9 @@ PROGRAMS = [
     ('fractions', '형.. 흡... 형... 흣... 형. 형 흡... 하앙....'),
     ('two-stacks', '%s 흑.... 형.. 항... 흑... 항. 항..' % P65),
     ('long-straight', ' '.join(['형.'] * 11 + [P65, '항.', '형..'])),
+    # line-break characters in what the program writes: CR LF, LF LF, a lone CR, a final LF - on both streams
+    ('line-breaks', ' '.join('%s 항%s' % (push(c), k) for c, k in ((65, '.'), (13, '.'), (10, '.'), (66, '.'), (67, '..'), (13, '..'), (10, '..'),
+                                                                   (10, '..'), (68, '..'), (13, '.'), (69, '.'), (10, '.')))),
     ('enc-after-stderr', '%s 항.. %s 항. %s 항. %s 항.' % (P65, P66, big(216, 256), P67)),
 ]
 
@@ -236,6 +239,10 @@ def parse_transcript(text):
             replies[-1].append(('log',))
         elif line.startswith('[error] '):
             replies[-1].append(('error',))
+        elif replies[-1] and replies[-1][-1][0] in ('out', 'err'):
+            # what the program wrote contained a line break: the text goes on in this line
+            kind, payload = replies[-1][-1]
+            replies[-1][-1] = (kind, payload + '\n' + line)
         else:
             replies[-1].append(('text',))
     close_state()
@@ -351,7 +358,17 @@ def sessions_task(name, text, scripts):
         f.write(text)
     for script in scripts:
         data = ''.join(l + '\n' for l in script)
-        if name.endswith('+color'):
+        if name.endswith('+nofinal') and script and script[-1] != '':
+            # no line break after the last command
+            r = sh.child('debug', hx(path), hx('\n'.join(script)), 20)
+            st.inc('sessions_without_final_line_break')
+        elif name.endswith('+long'):
+            # the long command words
+            longw = {'n': 'next', 'p': 'previous', 'r': 'run', 's': 'state', 'b': 'break', 'h': 'help'}
+            data = ''.join(' '.join([longw.get(l.split(' ')[0], l.split(' ')[0])] + l.split(' ')[1:]) + '\n' for l in script)
+            r = sh.child('debug', hx(path), hx(data), 20)
+            st.inc('sessions_with_long_words')
+        elif name.endswith('+color'):
             r = sh.child('debug', hx(path), hx(data), 20, 'always')
             r.out, r.err = strip_sgr(r.out), strip_sgr(r.err)
             st.inc('sessions_with_colour')
@@ -531,7 +548,10 @@ def run_c11(tier):
         for i in range(0, len(scripts), 60):
             tasks.append((name, text, scripts[i:i + 60]))
     # the same sessions with `--color always` (every 4th script): colour sequences removed, the text must be the same
-    tasks += [(t[0] + '+color', t[1], t[2][::4]) for t in tasks if len(t[2]) >= 4]
+    base = list(tasks)
+    tasks += [(t[0] + '+color', t[1], t[2][::4]) for t in base if len(t[2]) >= 4]
+    tasks += [(t[0] + '+long', t[1], t[2][2::5]) for t in base if len(t[2]) >= 3]
+    tasks += [(t[0] + '+nofinal', t[1], t[2][1::5]) for t in base if len(t[2]) >= 2]
     collect(st, pmap(_task, [(t,) for t in tasks]))
     cov = {
         'states': nstates,
@@ -544,7 +564,9 @@ def run_c11(tier):
                 'run on the real `debug::run` (stdin script, EOF at the end) and the transcript compared event by event.',
         'scope': {'programs': {n: t if len(t) < 120 else t[:60] + '…' for n, t in PROGRAMS}, 'per_program': info,
                   'commands': D15, 'bfs_commands': D8,
-                  'sessions_repeated_with_colour_always': st.n.get('sessions_with_colour', 0)},
+                  'sessions_repeated_with_colour_always': st.n.get('sessions_with_colour', 0),
+                  'sessions_repeated_with_long_command_words': st.n.get('sessions_with_long_words', 0),
+                  'sessions_repeated_without_final_line_break': st.n.get('sessions_without_final_line_break', 0)},
         'distinct_outcomes': sorted(st.sets.get('status', ())),
         'samples': [['n', 's', 'b 3', 'b', 'r', 's', 'p', 'p'], ['b 2', 'b', 'r'], ['r', 'p', 'n', 'n']],
     }
